@@ -147,6 +147,7 @@ def run(seed=0, rounds=6):
         case("long + bool", lambda I: XI.binop(ast.Add(), B, False), lambda: xi + b)
         case("where", lambda I: F["torch.where"](I, B, X, Y), lambda: torch.where(b, x, y))
         case("masked_fill", lambda I: M["masked_fill"](I, X, B, 7.0), lambda: x.masked_fill(b, 7.0))
+        case("bool * bool", lambda I: B.binop(ast.Mult(), B2, False), lambda: b * b2)
         case(".where method", lambda I: M["where"](I, X, B, Y), lambda: x.where(b, y))
         case("torch.where", lambda I: F["torch.where"](I, B, X, Y), lambda: torch.where(b, x, y))
         case("isneginf", lambda I: F["torch.isneginf"](I, M["masked_fill"](I, X, B, float("-inf"))), lambda: torch.isneginf(x.masked_fill(b, float("-inf"))))
